@@ -19,10 +19,10 @@ SRV_POOL = ["ssh", "ftp", "http"]
 PROC_POOL = ["tomcat", "daclsvc", "cron"]
 
 PROBS = [0.5, 0.25, 0.9, 0.8, 1.0, 1, 0.5, 0.9, 1.0, 0, 0.0]
-COSTS = [1, 2, 3, 0.5, 1.25, 10, 1, 1]
+COSTS = [1, 2, 3, 0.5, 1.25, 10, 1, 1, 0.1, 1000]
 SCAN_COSTS = [0, 1, 2, 0.5, 1, 1]
-VALUES = [0, 1, -1, -100, 5, 0.5, 50, 0.125]
-SENS_VALUES = [100, 10, 1, 0.5, 1000, 100]
+VALUES = [0, 1, -1, -100, 5, 0.5, 50, 0.125, 0.1, 16777217, -0.3]
+SENS_VALUES = [100, 10, 1, 0.5, 1000, 100, 0.1, 123456.75]
 
 
 def _coin(draw, p):
@@ -161,6 +161,11 @@ def documents(draw, max_subnets=4, max_size=3, max_hosts=7, extras=True,
         oss = ["windows_server", "windows", "win"][:nos]
         srvs = ["sftp", "ftp", "ftps"][:nsrv]
         procs = ["crond", "cron", "anacron"][:nproc]
+    elif _coin(draw, 0.15):
+        # unusual but valid strings (spaces, digits only, upper case, punctuation, non-ASCII)
+        oss = ["Linux 5.4", "os-ω", "OS_2"][:nos]
+        srvs = ["http/2", "80", "My Service"][:nsrv]
+        procs = ["proc.exe", "p 1", "Über"][:nproc]
     if _coin(draw, 0.12):
         # names are arbitrary: the same name may denote a service and a process (or an OS)
         which = draw(st.integers(0, 2))
